@@ -155,7 +155,7 @@ func c06CopyISM(m *IssueSignatureMessage) *IssueSignatureMessage {
 func TestVerifC06Honest(t *testing.T) {
 	r := vkit.Start(t, "C06", "honest-runs", 240*time.Second, 1500*time.Second)
 	defer r.Finish()
-	r.Rule = "attribute counts n (quick: 1,2,3,5 and len(R)-1 / thorough: every n) x EVERY subset of random-blind indices x keyshare on/off x witness on/off, toy and 1024-bit keys; values rotate through the boundary alphabet (incl. hashed sizes); non-trivial = distinct configuration; oracle: issuer accepts the commitment proof, credential is produced, its signature verifies over exactly (secret, attributes), each random-blind attribute = holder share + issuer share, witness attribute present, a disclosure proof from the new credential verifies"
+	r.Rule = "attribute counts n (quick: 1,2,3,5 and len(R)-1 / thorough: every n) x EVERY subset of random-blind indices (listed ascending or descending) x keyshare on/off x witness on/off, toy and 1024-bit keys; values rotate through the boundary alphabet (incl. hashed sizes); non-trivial = distinct configuration; oracle: issuer accepts the commitment proof, credential is produced, its signature verifies over exactly (secret, attributes), each random-blind attribute = holder share + issuer share, witness attribute present, a disclosure proof from the new credential verifies"
 	vfInstallEnv(t, "C06/honest", r.Seed)
 	for _, keyName := range []string{"toyA", "k1024a"} {
 		k := vfK(keyName)
@@ -188,6 +188,14 @@ func TestVerifC06Honest(t *testing.T) {
 						}
 						if r.Expired() {
 							return
+						}
+						// the random-blind indices are listed ascending or descending (by parity of the case number):
+						// neither party may rely on an order
+						if r.Evaluations%2 == 1 {
+							blind = append([]int{}, blind...)
+							for i, j := 0, len(blind)-1; i < j; i, j = i+1, j-1 {
+								blind[i], blind[j] = blind[j], blind[i]
+							}
 						}
 						cfg := c06Cfg{keyName, nn, blind, keyshare, witness}
 						r.Eval()
